@@ -162,18 +162,16 @@ class SkBaseTransformLearner(SkBaseTransform):
             del values["model"]
         elif not hasattr(self, "model") or self.model is None:
             raise KeyError(f"Missing key 'model' in [{', '.join(sorted(values))}]")
-        if "method" in values:
-            self._set_method(values["method"])
-            del values["method"]
+        method = values.pop("method", self.method)
         for k in values:
             if not k.startswith("model__"):
                 raise ValueError(f"Parameter '{k}' must start with 'model__'.")
         d = len("model__")
         pars = {k[d:]: v for k, v in values.items()}
         self.model.set_params(**pars)
-        if "method" in values:
-            self.method = values["method"]
-            self._set_method(values["method"])
+        # binds the method to the current model
+        self.method = method
+        self._set_method(method)
         return self
 
     #################
